@@ -208,7 +208,7 @@ class Ctx:
         self.prefix = list(prefix)
         self.decisions = []   # (choice, nopts)
         self.pc = []
-        self.solver = z3.new_solver(FEAS_TIMEOUT_MS)
+        self._solver = z3.new_solver(FEAS_TIMEOUT_MS)
         self.unknown_feasibility = 0
         self.lemmas = []
         self.defs = []
@@ -224,6 +224,18 @@ class Ctx:
         self.called = set()
         self.summ_used = set()
         self.tyenv = {}
+
+    @property
+    def solver(self):
+        if self._solver is None:          # released after the path ended: rebuilt from the path condition on demand
+            self._solver = z3.new_solver(FEAS_TIMEOUT_MS)
+            for c in self.pc:
+                self._solver.add(c)
+        return self._solver
+
+    def release(self):
+        """drop the incremental solver (its internal state dominates memory when hundreds of thousands of finished paths are kept)"""
+        self._solver = None
 
     def fresh(self, name, sort):
         self.fresh_n += 1
@@ -351,6 +363,7 @@ def explore(prog, entry, make_args, world_factory=None, check=None, max_paths=50
             ctx, out, alts = run_one(prefix)
             frontier.extend(alts)
             if ctx is not None:
+                ctx.release()
                 seeded.append((ctx, out))
         results = seeded[i::k]
         stack = frontier[i::k]
@@ -360,6 +373,7 @@ def explore(prog, entry, make_args, world_factory=None, check=None, max_paths=50
         stack.extend(alts)
         if ctx is None:
             continue
+        ctx.release()
         results.append((ctx, out))
         if len(results) > max_paths:
             raise BoundExceeded("max_paths")
@@ -844,6 +858,11 @@ class Program:
             return Adt("__Field", f"__ignore#{(max(ns) + 1) if ns else 0}", args)
         if len(segs) >= 2 and segs[-2] in self.enum_variants and self._variants_for(segs[-2], last):
             return Adt(segs[-2], last, args)
+        if len(segs) == 1 and getattr(ctx, "dest_ty", None):
+            # rustc prints variants of some foreign enums bare (`_1 = NotFound;`): the destination's type names the enum
+            h = re.sub(r"<.*", "", strip_generics(ctx.dest_ty)).split("::")[-1].strip()
+            if h in self.enum_variants and self._variants_for(h, last):
+                return Adt(h, last, args)
         if as_const and not args:
             # could be fn item or unit struct
             if self.resolve_local(path) or last[:1].islower():
